@@ -5,6 +5,38 @@ use crate::c10::*;
 
 /// Test generated for harness `c10::c10_w0_drivers_nd_n2` 
 ///
+/// Check for `assertion`: ""rolling2_apply_idx returned: every output slot written before assume_init""
+///
+/// # Warning
+///
+/// Concrete playback tests combined with stubs or contracts is highly
+/// experimental, and subject to change.
+///
+/// The original harness has stubs which are not applied to this test.
+/// This may cause a mismatch of non-deterministic values if the stub
+/// creates any non-deterministic value.
+/// The execution path may also differ, which can be used to refine the stub
+/// logic.
+
+#[test]
+fn kani_concrete_playback_c10_w0_drivers_nd_n2_11905326649284683296() {
+    let concrete_vals: Vec<Vec<u8>> = vec![
+        // 0
+        vec![0, 0, 0, 0],
+        // 0
+        vec![0, 0, 0, 0],
+        // 0
+        vec![0, 0, 0, 0],
+        // 0
+        vec![0, 0, 0, 0],
+        // 3
+        vec![3],
+    ];
+    kani::concrete_playback_run(concrete_vals, c10_w0_drivers_nd_n2);
+}
+
+/// Test generated for harness `c10::c10_w0_drivers_nd_n2` 
+///
 /// Check for `assertion`: ""rolling_custom returned: every output slot written before assume_init""
 ///
 /// # Warning
@@ -31,38 +63,6 @@ fn kani_concrete_playback_c10_w0_drivers_nd_n2_1717125616855861653() {
         vec![0, 0, 0, 0],
         // 4
         vec![4],
-    ];
-    kani::concrete_playback_run(concrete_vals, c10_w0_drivers_nd_n2);
-}
-
-/// Test generated for harness `c10::c10_w0_drivers_nd_n2` 
-///
-/// Check for `assertion`: ""rolling_apply returned: every output slot written before assume_init""
-///
-/// # Warning
-///
-/// Concrete playback tests combined with stubs or contracts is highly
-/// experimental, and subject to change.
-///
-/// The original harness has stubs which are not applied to this test.
-/// This may cause a mismatch of non-deterministic values if the stub
-/// creates any non-deterministic value.
-/// The execution path may also differ, which can be used to refine the stub
-/// logic.
-
-#[test]
-fn kani_concrete_playback_c10_w0_drivers_nd_n2_14611380597697617017() {
-    let concrete_vals: Vec<Vec<u8>> = vec![
-        // 0
-        vec![0, 0, 0, 0],
-        // 0
-        vec![0, 0, 0, 0],
-        // 0
-        vec![0, 0, 0, 0],
-        // 0
-        vec![0, 0, 0, 0],
-        // 0
-        vec![0],
     ];
     kani::concrete_playback_run(concrete_vals, c10_w0_drivers_nd_n2);
 }
@@ -101,6 +101,38 @@ fn kani_concrete_playback_c10_w0_drivers_nd_n2_9927752631507183988() {
 
 /// Test generated for harness `c10::c10_w0_drivers_nd_n2` 
 ///
+/// Check for `assertion`: ""rolling_apply returned: every output slot written before assume_init""
+///
+/// # Warning
+///
+/// Concrete playback tests combined with stubs or contracts is highly
+/// experimental, and subject to change.
+///
+/// The original harness has stubs which are not applied to this test.
+/// This may cause a mismatch of non-deterministic values if the stub
+/// creates any non-deterministic value.
+/// The execution path may also differ, which can be used to refine the stub
+/// logic.
+
+#[test]
+fn kani_concrete_playback_c10_w0_drivers_nd_n2_14611380597697617017() {
+    let concrete_vals: Vec<Vec<u8>> = vec![
+        // 0
+        vec![0, 0, 0, 0],
+        // 0
+        vec![0, 0, 0, 0],
+        // 0
+        vec![0, 0, 0, 0],
+        // 0
+        vec![0, 0, 0, 0],
+        // 0
+        vec![0],
+    ];
+    kani::concrete_playback_run(concrete_vals, c10_w0_drivers_nd_n2);
+}
+
+/// Test generated for harness `c10::c10_w0_drivers_nd_n2` 
+///
 /// Check for `assertion`: ""rolling2_apply returned: every output slot written before assume_init""
 ///
 /// # Warning
@@ -127,38 +159,6 @@ fn kani_concrete_playback_c10_w0_drivers_nd_n2_15630158060829636254() {
         vec![0, 0, 0, 0],
         // 2
         vec![2],
-    ];
-    kani::concrete_playback_run(concrete_vals, c10_w0_drivers_nd_n2);
-}
-
-/// Test generated for harness `c10::c10_w0_drivers_nd_n2` 
-///
-/// Check for `assertion`: ""rolling2_apply_idx returned: every output slot written before assume_init""
-///
-/// # Warning
-///
-/// Concrete playback tests combined with stubs or contracts is highly
-/// experimental, and subject to change.
-///
-/// The original harness has stubs which are not applied to this test.
-/// This may cause a mismatch of non-deterministic values if the stub
-/// creates any non-deterministic value.
-/// The execution path may also differ, which can be used to refine the stub
-/// logic.
-
-#[test]
-fn kani_concrete_playback_c10_w0_drivers_nd_n2_11905326649284683296() {
-    let concrete_vals: Vec<Vec<u8>> = vec![
-        // 0
-        vec![0, 0, 0, 0],
-        // 0
-        vec![0, 0, 0, 0],
-        // 0
-        vec![0, 0, 0, 0],
-        // 0
-        vec![0, 0, 0, 0],
-        // 3
-        vec![3],
     ];
     kani::concrete_playback_run(concrete_vals, c10_w0_drivers_nd_n2);
 }
